@@ -13,6 +13,7 @@
 #include <fcntl.h>
 #include <map>
 #include <poll.h>
+#include <sched.h>
 #include <string>
 #include <sys/mman.h>
 #include <sys/socket.h>
@@ -103,13 +104,20 @@ struct Options {
   uint32_t max_failures = 200;
   bool cache = true;
   uint64_t max_steps = 200000;
-  uint64_t cache_bits = 23;
+  uint64_t cache_bits = 21;
 };
 
 [[noreturn]] void worker_main(const HarnessInfo& h, int fd, int slot, const Options& opt) {
   std::string errpath = opt.stderr_dir + "/" + opt.harness + "." + std::to_string(getpid() % 100000) + ".w" + std::to_string(slot) + ".err";
   int efd = ::open(errpath.c_str(), O_CREAT | O_TRUNC | O_WRONLY, 0644);
   if (efd >= 0) { dup2(efd, 2); close(efd); }
+  {
+    // all logical threads of one worker share one core: a baton hand-off is then a same-core context
+    // switch instead of a cross-core wake-up
+    long ncpu = sysconf(_SC_NPROCESSORS_ONLN);
+    cpu_set_t set; CPU_ZERO(&set); CPU_SET((int)((slot + (getenv("VMC_PIN_BASE") ? atoi(getenv("VMC_PIN_BASE")) : 0)) % (ncpu > 0 ? ncpu : 1)), &set);
+    sched_setaffinity(0, sizeof set, &set);
+  }
   std::unordered_map<std::string, uint32_t> outcomes;
   Buf in;
   for (;;) {
@@ -121,13 +129,14 @@ struct Options {
     Task task = get_task(in);
     g_rec->t_execs = 0; g_rec->t_steps = 0; g_rec->t_pruned = 0;
     g_rec->floor = task.floor;
+    uint32_t floor = task.floor;
     std::vector<uint16_t> prefix = task.prefix;
     std::vector<Task> rest;
     std::vector<std::string> samples;
     uint32_t execs = 0;
     outcomes.clear();
     for (;;) {
-      if (ftruncate(2, 0) == 0) lseek(2, 0, SEEK_SET);
+      if (lseek(2, 0, SEEK_CUR) > 0 && ftruncate(2, 0) == 0) lseek(2, 0, SEEK_SET);
       run_once(h, prefix.data(), (uint32_t)prefix.size());
       ++execs;
       g_rec->t_execs.fetch_add(1, std::memory_order_relaxed);
@@ -139,17 +148,35 @@ struct Options {
       uint32_t np = g_rec->npoints.load();
       if (samples.size() < 2 && np <= 400) samples.push_back(choices_str(*g_rec, np) + " => " + oc);
       rest.clear();
-      bool stop = g_ctl->stop.load(std::memory_order_relaxed) != 0;
-      if (execs >= budget || stop) {
-        remaining(*g_rec, np, task.floor, g_cfg.bound, false, rest);
+      if (g_ctl->stop.load(std::memory_order_relaxed) != 0) {
+        remaining(*g_rec, np, floor, g_cfg.bound, false, rest);  // hand everything back unexplored
         break;
       }
-      if (!remaining(*g_rec, np, task.floor, g_cfg.bound, true, rest)) break;
+      if (execs % budget == 0 && g_ctl->hungry.load(std::memory_order_relaxed)) {
+        // donate the shallower half of the pending alternatives (the biggest subtrees) and keep the rest
+        remaining(*g_rec, np, floor, g_cfg.bound, false, rest);  // deepest first
+        if (rest.size() >= 2) {
+          uint32_t split = rest[rest.size() / 2].floor - 1;  // branching position of the median entry
+          if (split == rest.front().floor - 1) split = rest.front().floor - 1;  // all at one position: keep that position
+          Buf don; don.u32(1); uint32_t nd = 0;
+          for (auto& t : rest) if (t.floor - 1 < split) ++nd;
+          if (nd > 0) {
+            don.u32(nd);
+            for (auto& t : rest) if (t.floor - 1 < split) put_task(don, t);
+            if (!send_msg(fd, don)) _exit(0);
+            floor = split;
+            g_rec->floor = floor;
+          }
+        }
+        rest.clear();
+      }
+      if (!remaining(*g_rec, np, floor, g_cfg.bound, true, rest)) break;
       prefix = std::move(rest[0].prefix);
       rest.clear();
     }
     g_rec->status = RS_IDLE;
     Buf out;
+    out.u32(0);
     out.u32((uint32_t)rest.size());
     for (auto& t : rest) put_task(out, t);
     out.u32((uint32_t)outcomes.size());
@@ -313,7 +340,7 @@ struct Explorer {
       }
       // everything lexicographically after the dead execution inside its task is still to be explored
       std::vector<Task> rest;
-      if (rec.status != RS_IDLE) remaining(rec, np, s.cur.floor, bs.bound, false, rest);
+      if (rec.status != RS_IDLE) remaining(rec, np, rec.floor, bs.bound, false, rest);
       else if (++idle_deaths <= 50) rest.push_back(s.cur);  // died before running anything: retry the task
       else { std::fprintf(stderr, "[vmc] engine error: workers keep dying before executing anything\n"); std::exit(2); }
       for (auto& t : rest) queue.push_back(std::move(t));
@@ -324,13 +351,17 @@ struct Explorer {
 
   void assign(int i) {
     Slot& s = slots[i];
-    Task t = std::move(queue.back()); queue.pop_back();
-    uint32_t budget = queue.size() < 3 * slots.size() ? 6 : 400;
-    if (h.sequential) budget = queue.size() < 3 * slots.size() ? 200 : 20000;
+    // hand out the shallowest pending branch (the largest subtree)
+    size_t best = 0;
+    for (size_t k = 1; k < queue.size() && k < 4096; ++k) if (queue[k].floor < queue[best].floor) best = k;
+    Task t = std::move(queue[best]);
+    queue[best] = std::move(queue.back()); queue.pop_back();
+    uint32_t budget = h.sequential ? 256 : 16;  // executions between donation checks
     Buf b; b.u32(1); b.u32(budget); b.u32((uint32_t)g_cfg.bound); put_task(b, t);
     s.cur = std::move(t);
     s.rec->status = RS_IDLE;
     s.rec->npoints = 0;
+    s.rec->floor = s.cur.floor;
     s.busy = true; s.last_beat = s.rec->heartbeat.load(); s.last_change = now_s();
     if (!send_msg(s.fd, b)) { /* death is noticed by poll */ }
   }
@@ -347,6 +378,7 @@ struct Explorer {
     bool stopping = false;
     for (;;) {
       bool any_busy = false;
+      g_ctl->hungry.store(queue.size() < 2 * slots.size() ? 1 : 0, std::memory_order_relaxed);
       for (size_t i = 0; i < slots.size(); ++i) {
         if (slots[i].pid < 0 && !stopping) spawn_worker((int)i);
         if (slots[i].pid >= 0 && !slots[i].busy && !queue.empty() && !stopping) assign((int)i);
@@ -356,7 +388,7 @@ struct Explorer {
       std::vector<pollfd> pf;
       std::vector<int> idx;
       for (size_t i = 0; i < slots.size(); ++i) if (slots[i].busy) { pf.push_back(pollfd{slots[i].fd, POLLIN, 0}); idx.push_back((int)i); }
-      int pr = poll(pf.data(), pf.size(), 500);
+      int pr = poll(pf.data(), pf.size(), 200);
       double tn = now_s();
       if (pr > 0) {
         for (size_t k = 0; k < pf.size(); ++k) {
@@ -364,7 +396,9 @@ struct Explorer {
           int i = idx[k]; Slot& s = slots[i];
           Buf in;
           if (recv_msg(s.fd, in)) {
+            uint32_t kind = in.g32();
             uint32_t nt = in.g32();
+            if (kind == 1) { for (uint32_t j = 0; j < nt; ++j) queue.push_back(get_task(in)); continue; }
             for (uint32_t j = 0; j < nt; ++j) queue.push_back(get_task(in));
             uint32_t no = in.g32();
             for (uint32_t j = 0; j < no; ++j) { uint32_t c = in.g32(); std::string o = in.gstr(); merge_outcome(o, c); }
